@@ -40,6 +40,12 @@ pub fn generate(tier: &str, rng: &mut Rng) -> Vec<Spec> {
         v.push(mk(*n, &xs)); } }
     // sample types with a niche (Option<char>: the all-zero bit pattern is Some('\0'))
     for n in 1..=4 { for xs in super_all(&abc, if thorough { 6 } else { 4 }) { v.push(mk(n, &xs).with("ty", "char")); } }
+    // Clone::clone_from into a filter that has seen other samples, from a source at every fill level
+    for n in [1usize, 3, 5] { for l1 in [0usize, 2, n + 2] { for l2 in 0..=(n + 1) {
+        let g = |rng: &mut Rng, l: usize| (0..l).map(|_| rng.range(0, 9).to_string()).collect::<Vec<String>>();
+        let (h1, h2, c) = (g(rng, l1), g(rng, l2), g(rng, n + 3));
+        let mut all = h2.clone(); all.extend(c);
+        v.push(mk(n, &all).with("pre", h1.join(",")).with("split", l2)); } } }
     // random long histories: small alphabets (ties), monotone runs, outliers, some NaN
     let nrand = if thorough { 5000 } else { 600 };
     let widths: &[usize] = if thorough { &[1, 2, 3, 4, 5, 6, 7, 8, 9, 10, 11, 12, 13, 16] } else { &[3, 4, 5, 6, 7, 8, 9] };
@@ -58,13 +64,20 @@ pub fn generate(tier: &str, rng: &mut Rng) -> Vec<Spec> {
     v
 }
 
-fn run<const N: usize>(xs: &[f64], stats: &mut Stats) -> Outcome {
+fn run<const N: usize>(xs: &[f64], stats: &mut Stats) -> Outcome { run_cf::<N>(xs, None, stats) }
+/// with `cf = Some((pre, split))`: a second filter is fed `pre`, and after `split` samples it is overwritten by
+/// `clone_from(&f)` and continues in f's place
+fn run_cf<const N: usize>(xs: &[f64], cf: Option<(&[f64], usize)>, stats: &mut Stats) -> Outcome {
     let mut f: Median<f64, N> = Median::default();
     let acc = |f: &Median<f64, N>| format!("({}, {}, {})", copt(&catch(|| f.min()).ok(), |o| oshow(*o)), copt(&catch(|| f.median()).ok(), |o| oshow(*o)), copt(&catch(|| f.max()).ok(), |o| oshow(*o)));
     let mut ys = vec![]; let mut accs = vec![acc(&f)]; let mut panic = false;
-    for x in xs {
+    let mut dst: Median<f64, N> = Median::default();
+    if let Some((pre, _)) = cf { for x in pre { let _ = catch(|| dst.filter(*x)); } }
+    for (k, x) in xs.iter().enumerate() {
+        if let Some((_, split)) = cf { if k == split { if catch(|| dst.clone_from(&f)).is_err() { panic = true; break; } std::mem::swap(&mut f, &mut dst); accs.pop(); accs.push(acc(&f)); } }
         match catch(|| f.filter(*x)) { Ok(y) => { ys.push(y); accs.push(acc(&f)); } Err(_) => { panic = true; stats.panics += 1; break } }
     }
+    if let Some((_, split)) = cf { if split == xs.len() && !panic { if catch(|| dst.clone_from(&f)).is_err() { panic = true; } else { accs.pop(); accs.push(acc(&dst)); } } }
     Outcome::Case(format!("mk {}%nat {} {} {} [{}]", N, clist(xs, |x| show(*x)), clist(&ys, |x| show(*x)), cbool(panic), accs.join(";")))
 }
 
@@ -84,5 +97,7 @@ pub fn exec(s: &Spec, stats: &mut Stats) -> Outcome {
     stats.bump(format!("N:{}", n)); stats.bump(format!("len:{}", xs.len() / 10 * 10));
     if xs.iter().any(|x| x.is_nan()) { stats.bump("with-NaN"); }
     if s.has("ty") && s.get("ty") == "char" { stats.bump("ty:char"); let cs: Vec<char> = xs.iter().map(|x| (b'a' + *x as u8) as char).collect(); return crate::dispatch_n!(n, run_char, (&cs, stats); 1 2 3 4); }
+    if s.has("pre") { stats.bump("clone_from"); let pre: Vec<f64> = s.strs("pre").iter().map(|t| tok(t)).collect(); let split = s.usize("split");
+        return crate::dispatch_n!(n, run_cf, (&xs, Some((&pre[..], split)), stats); 1 3 5); }
     crate::dispatch_n!(n, run, (&xs, stats); 1 2 3 4 5 6 7 8 9 10 11 12 13 16 32 100 129 200 300)
 }
